@@ -123,6 +123,13 @@ pub struct SeqCase {
     pub edits: Vec<(u16, u8)>,
     /// (start fraction, end fraction) sections taken after the parent's id was computed
     pub sections: Vec<(u16, u16)>,
+    /// the buffer starts with a UTF-8 byte order mark
+    #[serde(default)]
+    pub bom: bool,
+    /// (position fraction, position fraction, kind) permutation-style edits: they preserve length and every
+    /// commutative digest of the content (sum / xor of bytes or words)
+    #[serde(default)]
+    pub swaps: Vec<(u16, u16, u8)>,
 }
 
 pub fn seq_case() -> BoxedStrategy<SeqCase> {
@@ -131,8 +138,10 @@ pub fn seq_case() -> BoxedStrategy<SeqCase> {
         any::<u64>(),
         vec((any::<u16>(), any::<u8>()), 1..5),
         vec((any::<u16>(), any::<u16>()), 1..4),
+        prop::bool::weighted(0.3),
+        vec((any::<u16>(), any::<u16>(), 0u8..4), 1..5),
     )
-        .prop_map(|(len, seed, edits, sections)| SeqCase { len, seed, edits, sections })
+        .prop_map(|(len, seed, edits, sections, bom, swaps)| SeqCase { len, seed, edits, sections, bom, swaps })
         .boxed()
 }
 
@@ -155,8 +164,49 @@ pub fn check_seq(c: &SeqCase, st: &mut Stats) -> Check {
         }
         Ok(())
     };
+    if c.bom && buf.len() >= 3 {
+        buf[..3].copy_from_slice(b"\xef\xbb\xbf");
+        st.class("buffer starting with a UTF-8 byte order mark");
+    }
     check(&buf, "first call", st)?;
     st.nontrivial(fnv64(&buf) ^ c.seed);
+    // permutation-style edits of the same allocation: swap two bytes at a distance that is a multiple of 8, swap two
+    // aligned 8-byte words, swap two 64-byte blocks, reverse a run
+    for (a, b, kind) in &c.swaps {
+        let n = buf.len();
+        if n < 16 {
+            break;
+        }
+        let i = (((*a as usize) * (n / 8)) >> 16) * 8;
+        let j = (((*b as usize) * (n / 8)) >> 16) * 8;
+        if i == j {
+            continue;
+        }
+        match kind % 4 {
+            0 => buf.swap(i, j),
+            1 => {
+                if i + 8 <= n && j + 8 <= n && (i + 8 <= j || j + 8 <= i) {
+                    for k in 0..8 {
+                        buf.swap(i + k, j + k);
+                    }
+                }
+            }
+            2 => {
+                let (i, j) = (i.min(j), i.max(j));
+                if j + 64 <= n && i + 64 <= j {
+                    for k in 0..64 {
+                        buf.swap(i + k, j + k);
+                    }
+                }
+            }
+            _ => {
+                let (i, j) = (i.min(j), i.max(j));
+                buf[i..j].reverse();
+            }
+        }
+        check(&buf, "after a permutation-style in-place edit (length and byte multiset unchanged)", st)?;
+    }
+    st.class("permutation-style in-place edits");
     // in-place edits of the same allocation (same address, same length); the middle, the edges, single bytes
     for (pos, byte) in &c.edits {
         let at = ((*pos as usize) * buf.len()) >> 16;
